@@ -118,10 +118,15 @@ func RunParent(ch *Check, tier string, seed int64) int {
 				out := filepath.Join(runDir, fmt.Sprintf("shard-%d-%d.json", k, attempt))
 				cmd := exec.Command(os.Args[0], "-id", ch.ID, "-tier", tier, "-seed", fmt.Sprint(seed),
 					"-worker", fmt.Sprintf("%d/%d", k, n), "-resume", fmt.Sprint(resume), "-out", out)
-				cmd.Stderr = os.Stderr
-				cmd.Stdout = os.Stderr
+				// a worker that dies of a fatal runtime error prints a huge goroutine dump: keep the head only
+				var errBuf cappedBuf
+				cmd.Stderr = &errBuf
+				cmd.Stdout = &errBuf
 				cmd.Env = append(os.Environ(), "GOMAXPROCS=2")
 				err := cmd.Run()
+				if errBuf.n > 0 {
+					fmt.Fprintf(os.Stderr, "[worker %d/%d stderr, first %d of %d bytes]\n%s\n", k, n, len(errBuf.b), errBuf.n, errBuf.b)
+				}
 				var r Result
 				b, rerr := os.ReadFile(out)
 				if rerr == nil {
@@ -309,6 +314,23 @@ func RunParent(ch *Check, tier string, seed int64) int {
 		return 1
 	}
 	return 0
+}
+
+// cappedBuf keeps the first 3000 bytes written to it.
+type cappedBuf struct {
+	b []byte
+	n int
+}
+
+func (c *cappedBuf) Write(p []byte) (int, error) {
+	c.n += len(p)
+	if room := 3000 - len(c.b); room > 0 {
+		if len(p) < room {
+			room = len(p)
+		}
+		c.b = append(c.b, p[:room]...)
+	}
+	return len(p), nil
 }
 
 func clip(s string, n int) string {
